@@ -421,6 +421,16 @@ static std::string exec(const std::vector<std::string> &w) {
     }
     if (kind == "opt" && w.size() == i + 2) {
       OptObj o = make_opt(w[i + 1]);
+      // periodic checkpointing: the same object was saved before, in another state (every setting different)
+      {
+        const std::uint32_t e0 = o.opt->epoch_;
+        const float a0 = o.opt->lr_scale_, b0 = o.opt->l2_strength_, c0 = o.opt->clip_threshold_;
+        o.opt->epoch_ = e0 + 3; o.opt->lr_scale_ = 0.125f; o.opt->l2_strength_ = 0.375f; o.opt->clip_threshold_ = 5.5f;
+        const std::string scratch = g_dir + "/interim_opt.bin";
+        try { o.opt->save(scratch); } catch (const Error &) {}
+        ::unlink(scratch.c_str());
+        o.opt->epoch_ = e0; o.opt->lr_scale_ = a0; o.opt->l2_strength_ = b0; o.opt->clip_threshold_ = c0;
+      }
       return run_save(failing, sink, [&](const std::string &path) { o.opt->save(path); });
     }
     throw BadOp();
